@@ -44,10 +44,26 @@ Fixpoint ops_ok (s : state) (ops : list op) : bool :=
    1 writable lost, 2 for-in ignores shadowing, 3 getter pair under a data mode (Go panic),
    4 accessor with neither getter nor setter reported without get/set, 5 defineProperties
    converts and defines entry by entry, 6 for-in reads the order array shifted by a delete *)
+Definition bools : list bool := [false; true].
+Definition variants : list fixes :=
+  flat_map (fun a => flat_map (fun b => flat_map (fun c => map (fun d => mkFx a b c d) bools) bools) bools) bools.
+
+(* the model as the tree stands first; if the observation differs, the model with any subset of
+   the proposed repairs applied (each replaces one recorded deviation by the ES5 behaviour) *)
+Fixpoint first_match (obs : list (list Z)) (ops : list op) (vs : list fixes) : option (list (list Z) * Z) :=
+  match vs with
+  | [] => None
+  | fx :: vs' => let r := mrun fx minit ops in
+                 if llz_eqb obs (fst r) then Some r else first_match obs ops vs'
+  end.
+
 Definition verdict (c : case) : Z * Z :=
   match c with
   | CHist ops obs =>
       if negb (ops_ok init ops) then declined
-      else let '(m, tag) := mrun minit ops in
+      else let '(m, tag) := match first_match obs ops variants with
+                            | Some r => r
+                            | None => mrun nofix minit ops
+                            end in
            judge llz_eqb obs m (run init ops) tag
   end.
